@@ -288,10 +288,13 @@ if re.fullmatch(r"if \(this->iccBuf != NULL && this->iccSize != 0\)", between):
     tj_icc_uncond = 1
 else:
     tj_icc_uncond = 0
-    mg = re.search(r"if \(copyOption == JCOPYOPT_ALL \|\| copyOption == JCOPYOPT_ICC\) \{.*?for \(marker = dinfo->marker_list; marker != NULL; "
-                   r"marker = marker->next\) \{ if \(marker->marker == JPEG_APP0 \+ 2 && marker->data_length >= (\d+) && "
-                   r"!memcmp\(marker->data, \"((?:[^\"\\\\]|\\\\.)*)\", (\d+)\)\) iccCopied = TRUE; \} \} "
-                   r"if \(this->iccBuf != NULL && this->iccSize != 0 && !iccCopied\)$", between)
+    between2 = between.replace(" ", "")
+    want_head = "if(copyOption==JCOPYOPT_ALL||copyOption==JCOPYOPT_ICC){jpeg_saved_marker_ptrmarker;for(marker=dinfo->marker_list;marker!=NULL;marker=marker->next){if(marker->marker==JPEG_APP0+2&&marker->data_length>="
+    want_tail = "iccCopied=TRUE;}}if(this->iccBuf!=NULL&&this->iccSize!=0&&!iccCopied)"
+    mg = None
+    if between2.startswith(want_head) and between2.endswith(want_tail):
+        mid = between2[len(want_head):len(between2) - len(want_tail)]
+        mg = re.fullmatch(r'(\d+)&&!memcmp\(marker->data,"((?:[^"\\]|\\.)*)",(\d+)\)\)', mid)
     if not mg:
         die("turbojpeg.c: tj3Transform ICC condition not understood: " + between[:300])
     if not re.search(r"copyOption\s*=\s*t\[i\]\.options\s*&\s*TJXOPT_COPYNONE\s*\?\s*JCOPYOPT_NONE\s*:\s*\(JCOPY_OPTION\)\s*this->saveMarkers", tb) or \
